@@ -19,13 +19,17 @@ def GoodNum (w : Bytes) : Prop := w ≠ [] ∧ w.all isDigit = true
 /-- what follows a word: end of input or a space -/
 def Sep (r : Bytes) : Prop := r = [] ∨ ∃ r', r = 32 :: r'
 
-/-- what may follow a word: end of input, a space, or the `@` of a variable (`name@host.tld`) -/
-def SepW (r : Bytes) : Prop := r = [] ∨ ∃ d r', r = d :: r' ∧ (d = 32 ∨ d = 64)
+/-- the bytes that may follow a word directly: a space, the `@` of a variable (`name@host.tld`), or one of the
+punctuation marks `,` `:` `?` -/
+def isSepByte (d : UInt8) : Bool := d == 32 || d == 64 || d == 44 || d == 58 || d == 63
+
+/-- what may follow a word: end of input or a separator byte -/
+def SepW (r : Bytes) : Prop := r = [] ∨ ∃ d r', r = d :: r' ∧ isSepByte d = true
 
 theorem Sep.toW {r : Bytes} (h : Sep r) : SepW r := by
   rcases h with h | ⟨r', h⟩
   · exact Or.inl h
-  · exact Or.inr ⟨32, r', h, Or.inl rfl⟩
+  · exact Or.inr ⟨32, r', h, rfl⟩
 
 /-- table facts about the bytes of words (re-checked against the regenerated tables on every build) -/
 theorem wordByte_facts (c : UInt8) (h : isWordByteB c = true) :
@@ -37,7 +41,11 @@ theorem wordByte_facts (c : UInt8) (h : isWordByteB c = true) :
   exact ⟨a, b, c', d, e, f⟩
 
 theorem space_facts : notWordAccept 32 = false ∧ isDigit 32 = false := by decide +kernel
-theorem at_facts : notWordAccept 64 = false := by decide +kernel
+theorem sepByte_facts (d : UInt8) (h : isSepByte d = true) :
+    notWordAccept d = false ∧ d ≠ 39 ∧ d ≠ 38 ∧ d ≠ 113 ∧ d ≠ 81 := by
+  unfold isSepByte at h
+  simp only [Bool.or_eq_true, beq_iff_eq] at h
+  rcases h with (((rfl | rfl) | rfl) | rfl) | rfl <;> decide +kernel
 
 theorem spn_all (p : UInt8 → Bool) : ∀ (l : Bytes), l.all p = true → spn p l = l.length
   | [], _ => rfl
@@ -52,13 +60,11 @@ theorem spn_run (p : UInt8 → Bool) (w r : Bytes) (hw : w.all p = true) (hr : r
   · simp [spn_all p w hw]
   · exact spn_append_stop p w 32 r' hw h32
 
-theorem spn_runW (p : UInt8 → Bool) (w r : Bytes) (hw : w.all p = true) (hr : SepW r) (h32 : p 32 = false) (h64 : p 64 = false) :
+theorem spn_runW (p : UInt8 → Bool) (w r : Bytes) (hw : w.all p = true) (hr : SepW r) (hsep : ∀ d, isSepByte d = true → p d = false) :
     spn p (w ++ r) = w.length := by
   rcases hr with rfl | ⟨d, r', rfl, hd⟩
   · simp [spn_all p w hw]
-  · rcases hd with rfl | rfl
-    · exact spn_append_stop p w 32 r' hw h32
-    · exact spn_append_stop p w 64 r' hw h64
+  · exact spn_append_stop p w d r' hw (hsep d hd)
 
 theorem goodWord_bytes {w : Bytes} (h : GoodWord w) : w.all isWordByteB = true ∧ 1 ≤ w.length := by
   obtain ⟨⟨c, t, rfl, hc, ht⟩, _⟩ := h
@@ -113,7 +119,7 @@ theorem splitLoop_safe (rest : Bytes) (t : Token) (hv : t.val.length = t.len)
 /-- a dotted identifier `w1.w2` that is no key, starts no phrase, and whose first part is no keyword -/
 def GoodDotted (w : Bytes) : Prop :=
   ∃ w1 w2, w = w1 ++ 46 :: w2 ∧ (∃ c t, w1 = c :: t ∧ isWordStartB c = true ∧ t.all isWordByteB = true) ∧
-    w2 ≠ [] ∧ w2.all isWordByteB = true ∧ (searchKeyword w1 = 0 ∨ searchKeyword w1 = 110) ∧
+    w2.all isWordByteB = true ∧ (searchKeyword w1 = 0 ∨ searchKeyword w1 = 110) ∧
     (w.length < 32 → searchKeyword w = 0) ∧ (w.length ≤ 31 → PhraseFree w)
 
 theorem dot_word_facts : notWordAccept 46 = true := by decide +kernel
@@ -122,14 +128,14 @@ theorem dot_word_facts : notWordAccept 46 = true := by decide +kernel
 theorem parseWord_dotted (w r : Bytes) (hw : GoodDotted w) (hr : SepW r) :
     parseWord (w ++ r) = .ok { tok := { cat := 110, pos := 0, len := clip w.length, val := w.take (clip w.length) },
                                next := w.length } := by
-  obtain ⟨w1, w2, hwe, ⟨c, t, hw1, hc, ht⟩, hne2, hall2, hk1, hkw, _⟩ := hw
+  obtain ⟨w1, w2, hwe, ⟨c, t, hw1, hc, ht⟩, hall2, hk1, hkw, _⟩ := hw
   have hall1 : w1.all isWordByteB = true := by rw [hw1]; simp [isWordByteB, hc, ht]
   have hnw : w.all notWordAccept = true := by
     rw [hwe]
     simp only [List.all_append, List.all_cons, Bool.and_eq_true]
     exact ⟨all_imp hall1 (fun c hc => (wordByte_facts c hc).1), dot_word_facts, all_imp hall2 (fun c hc => (wordByte_facts c hc).1)⟩
   have hlen : 1 ≤ w.length := by rw [hwe]; simp; omega
-  have hspn := spn_runW notWordAccept w r hnw hr space_facts.1 at_facts
+  have hspn := spn_runW notWordAccept w r hnw hr (fun d hd => (sepByte_facts d hd).1)
   have hcl := clip_le w.length
   unfold parseWord
   simp only [hspn]
@@ -188,7 +194,7 @@ theorem parseWord_good (w r : Bytes) (hw : GoodWord w) (hr : SepW r) :
                                next := w.length } := by
   obtain ⟨hall, hlen⟩ := goodWord_bytes hw
   have hnw : w.all notWordAccept = true := all_imp hall (fun c hc => (wordByte_facts c hc).1)
-  have hspn := spn_runW notWordAccept w r hnw hr space_facts.1 at_facts
+  have hspn := spn_runW notWordAccept w r hnw hr (fun d hd => (sepByte_facts d hd).1)
   have hcl := clip_le w.length
   unfold parseWord
   simp only [hspn]
@@ -215,7 +221,7 @@ theorem parseWord_good (w r : Bytes) (hw : GoodWord w) (hr : SepW r) :
 
 /-- the bytes of `w ++ r` up to and including the separator -/
 theorem rest_idx (w r : Bytes) (hall : w.all isWordByteB = true) (hr : SepW r) (i : Nat) (x : UInt8)
-    (hi : i ≤ w.length) (h : (w ++ r)[i]? = some x) : isWordByteB x = true ∨ x = 32 ∨ x = 64 := by
+    (hi : i ≤ w.length) (h : (w ++ r)[i]? = some x) : isWordByteB x = true ∨ isSepByte x = true := by
   rcases Nat.lt_or_ge i w.length with hl | hg
   · rw [List.getElem?_append_left hl] at h
     exact Or.inl (List.all_eq_true.mp hall x (List.mem_of_getElem? h))
@@ -226,15 +232,12 @@ theorem rest_idx (w r : Bytes) (hall : w.all isWordByteB = true) (hr : SepW r) (
     rcases hr with rfl | ⟨d, r', rfl, hd⟩
     · simp at h
     · have hx : x = d := by simpa using h.symm
-      rcases hd with rfl | rfl
-      · exact Or.inr (Or.inl hx)
-      · exact Or.inr (Or.inr hx)
+      exact Or.inr (hx ▸ hd)
 
-theorem idx_ne (x : UInt8) (h : isWordByteB x = true ∨ x = 32 ∨ x = 64) : x ≠ 39 ∧ x ≠ 38 := by
-  rcases h with h | h | h
+theorem idx_ne (x : UInt8) (h : isWordByteB x = true ∨ isSepByte x = true) : x ≠ 39 ∧ x ≠ 38 := by
+  rcases h with h | h
   · have := wordByte_facts x h; exact ⟨this.2.2.2.1, this.2.2.2.2.1⟩
-  · subst h; decide
-  · subst h; decide
+  · have := sepByte_facts x h; exact ⟨this.2.1, this.2.2.1⟩
 
 /-- what the prefix lexers (`b'`, `e'`, `n'`, `q'`, `u&'`, `x'`) look at before falling back to `parseWord` -/
 structure NoQuote (rest : Bytes) : Prop where
@@ -249,18 +252,16 @@ theorem noQuote_good (w r : Bytes) (hw : GoodWord w) (hr : SepW r) : NoQuote (w 
     · omega
     · exfalso
       have e1 : w.length = 1 := by omega
-      have h32 : ∀ y, (w ++ r)[1]? = some y → y = 32 ∨ y = 64 := by
+      have h32 : ∀ y, (w ++ r)[1]? = some y → isSepByte y = true := by
         intro y hy
         rw [List.getElem?_append_right (by omega), e1] at hy
         rcases hr with rfl | ⟨d, r', rfl, hd⟩
         · simp at hy
         · have : y = d := by simpa using hy.symm
-          rcases hd with rfl | rfl
-          · exact Or.inl this
-          · exact Or.inr this
+          exact this ▸ hd
       rcases hq with hq | hq
-      · rcases h32 _ hq with h | h <;> exact absurd h (by decide)
-      · rcases h32 _ hq with h | h <;> exact absurd h (by decide)
+      · exact absurd rfl (sepByte_facts _ (h32 _ hq)).2.2.2.1
+      · exact absurd rfl (sepByte_facts _ (h32 _ hq)).2.2.2.2
   exact (idx_ne x (rest_idx w r hall hr 2 x h2 hx)).1
 
 theorem getElem_of (rest : Bytes) (i : Nat) (h : i < rest.length) : rest[i]? = some rest[i] :=
@@ -419,7 +420,7 @@ theorem parseNumber_good (w r : Bytes) (hw : GoodNum w) (hr : Sep r) :
   rw [List.take_append_of_le_length (by omega)]
 
 /-- a decimal number: digits, a dot, digits -/
-def GoodDec (w : Bytes) : Prop := ∃ d1 d2, w = d1 ++ 46 :: d2 ∧ GoodNum d1 ∧ GoodNum d2
+def GoodDec (w : Bytes) : Prop := ∃ d1 d2, w = d1 ++ 46 :: d2 ∧ GoodNum d1 ∧ d2.all isDigit = true
 
 theorem dot_facts : isDigit 46 = false := by decide
 
@@ -427,9 +428,8 @@ theorem dot_facts : isDigit 46 = false := by decide
 theorem parseNumber_dec (w r : Bytes) (hw : GoodDec w) (hr : Sep r) :
     parseNumber (w ++ r) = .ok { tok := { cat := 49, pos := 0, len := clip w.length, val := w.take (clip w.length) },
                                  next := w.length } := by
-  obtain ⟨d1, d2, hwe, ⟨hne1, hall1⟩, ⟨hne2, hall2⟩⟩ := hw
+  obtain ⟨d1, d2, hwe, ⟨hne1, hall1⟩, hall2⟩ := hw
   have hl1 : 1 ≤ d1.length := length_pos_of_ne_nil hne1
-  have hl2 : 1 ≤ d2.length := length_pos_of_ne_nil hne2
   have hwl : w.length = d1.length + (d2.length + 1) := by rw [hwe]; simp
   -- the whole remaining input, kept opaque
   generalize hR : w ++ r = R
@@ -558,11 +558,10 @@ theorem runP_goodWord (flags : Nat) (w r : Bytes) (hw : GoodWord w) (hr : SepW r
   · rw [parseXBString_word _ _ hq]; exact hword
   · rw [parseEString_word _ hq]; exact hword
 
-theorem dotted_bytes {w : Bytes} (h : GoodDotted w) : (∀ x ∈ w, isWordByteB x = true ∨ x = 46) ∧ 3 ≤ w.length ∧
+theorem dotted_bytes {w : Bytes} (h : GoodDotted w) : (∀ x ∈ w, isWordByteB x = true ∨ x = 46) ∧ 2 ≤ w.length ∧
     ∃ c t, w = c :: t ∧ isWordStartB c = true := by
-  obtain ⟨w1, w2, hwe, ⟨c, t, hw1, hc, ht⟩, hne2, hall2, _⟩ := h
+  obtain ⟨w1, w2, hwe, ⟨c, t, hw1, hc, ht⟩, hall2, _⟩ := h
   have hall1 : w1.all isWordByteB = true := by rw [hw1]; simp [isWordByteB, hc, ht]
-  have hl2 : 1 ≤ w2.length := length_pos_of_ne_nil hne2
   refine ⟨?_, by rw [hwe, hw1]; simp; omega, c, t ++ 46 :: w2, by rw [hwe, hw1]; simp, hc⟩
   intro x hx
   rw [hwe] at hx
@@ -574,12 +573,21 @@ theorem dotted_bytes {w : Bytes} (h : GoodDotted w) : (∀ x ∈ w, isWordByteB 
 
 theorem noQuote_dotted (w r : Bytes) (hw : GoodDotted w) (hr : SepW r) : NoQuote (w ++ r) := by
   obtain ⟨hb, hl3, _⟩ := dotted_bytes hw
-  have key : ∀ i x, i < w.length → (w ++ r)[i]? = some x → x ≠ 39 ∧ x ≠ 38 := by
+  have key : ∀ i x, i ≤ w.length → (w ++ r)[i]? = some x → x ≠ 39 ∧ x ≠ 38 := by
     intro i x hi hx
-    rw [List.getElem?_append_left hi] at hx
-    rcases hb x (List.mem_of_getElem? hx) with h | h
-    · have := wordByte_facts x h; exact ⟨this.2.2.2.1, this.2.2.2.2.1⟩
-    · subst h; decide
+    rcases Nat.lt_or_ge i w.length with hi' | hi'
+    · rw [List.getElem?_append_left hi'] at hx
+      rcases hb x (List.mem_of_getElem? hx) with h | h
+      · have := wordByte_facts x h; exact ⟨this.2.2.2.1, this.2.2.2.2.1⟩
+      · subst h; decide
+    · have : i = w.length := by omega
+      subst this
+      rw [List.getElem?_append_right (Nat.le_refl _)] at hx
+      simp only [Nat.sub_self] at hx
+      rcases hr with rfl | ⟨d, r', rfl, hd⟩
+      · simp at hx
+      · have hx' : x = d := by simpa using hx.symm
+        have := sepByte_facts x (hx' ▸ hd); exact ⟨this.2.1, this.2.2.1⟩
   exact ⟨fun x hx => key 1 x (by omega) hx, fun _ x hx => (key 2 x (by omega) hx).1⟩
 
 /-- through the dispatch table, a good dotted identifier becomes one bareword -/
@@ -608,7 +616,7 @@ theorem dottedTok_benign (w : Bytes) (hw : GoodDotted w) (p : Nat) : BenignTok {
   obtain ⟨_, hl3, _⟩ := dotted_bytes hw
   refine ⟨rfl, clip_pos (by omega), ?_⟩
   show clip w.length = 31 ∨ PhraseFree (w.take (clip w.length))
-  obtain ⟨_, _, _, _, _, _, _, _, hpf⟩ := hw
+  obtain ⟨_, _, _, _, _, _, _, hpf⟩ := hw
   by_cases hl : w.length ≤ 31
   · right
     have hc : clip w.length = w.length := clip_of_lt (by show w.length < 32; omega)
@@ -705,6 +713,42 @@ theorem parseVar_good (vw r : Bytes) (hv : VarBody vw) (hr : Sep r) :
   rw [List.take_append_of_le_length (by omega)]
   rfl
 
+/-! punctuation: `,` (its own class), `?` (class `?`), `:` followed by a space (class `:`) -/
+def punctTok (p : UInt8) : Token := { cat := p, pos := 0, len := 1, val := [p] }
+
+theorem punct_dispatch : dispatch 44 = .byte ∧ dispatch 63 = .other ∧ dispatch 58 = .op2 ∧ searchKeyword [58, 32] = 0 := by
+  decide +kernel
+
+theorem runP_comma (flags : Nat) (r : Bytes) :
+    runP flags (44 :: r) (dispatch 44) = .ok { tok := punctTok 44, next := 1 } := by
+  rw [punct_dispatch.1]
+  unfold runP parseByte
+  simp only [bind, Except.bind, pure, Except.pure]
+  have : at' (44 :: r) 0 = .ok 44 := rfl
+  rw [this]
+  simp only []
+  rw [assign_ok _ _ _ _ _ (by simp [clip_one])]
+  rfl
+
+theorem runP_qmark (flags : Nat) (r : Bytes) :
+    runP flags (63 :: r) (dispatch 63) = .ok { tok := punctTok 63, next := 1 } := by
+  rw [punct_dispatch.2.1]
+  unfold runP parseOther
+  simp only [bind, Except.bind, pure, Except.pure]
+  rw [assign_ok _ _ _ _ _ (by simp [clip_one])]
+  rfl
+
+theorem runP_colon (flags : Nat) (r : Bytes) :
+    runP flags (58 :: 32 :: r) (dispatch 58) = .ok { tok := punctTok 58, next := 1 } := by
+  rw [punct_dispatch.2.2.1]
+  unfold runP parseOperator2
+  have hand : (g (2 < (58 :: 32 :: r).length) <&&> byteIs (58 :: 32 :: r) 0 60 <&&> byteIs (58 :: 32 :: r) 1 61 <&&> byteIs (58 :: 32 :: r) 2 62) = .ok false := by
+    cases r <;> simp [andM, g, byteIs, at', bind, Except.bind, pure, Except.pure, toBool]
+  simp only [hand]
+  simp [bind, Except.bind, pure, Except.pure, slice, at', punct_dispatch.2.2.2]
+  rw [assign_ok _ _ _ _ _ (by simp [clip_one])]
+  rfl
+
 /-- the text that remains to be scanned: good words and numbers, each followed by end of input or a
 space, with any number of spaces in between; a word may also be followed directly by a variable
 (`name@host.tld`), and a variable may stand alone -/
@@ -712,11 +756,13 @@ inductive Txt : Bytes → Prop
   | nil : Txt []
   | space {r : Bytes} : Txt r → Txt (32 :: r)
   | word {w r : Bytes} : (GoodWord w ∨ GoodNum w) → Sep r → Txt r → Txt (w ++ r)
-  | wordAt {w r : Bytes} : GoodWord w → Txt (64 :: r) → Txt (w ++ 64 :: r)
+  | wordAt {w r : Bytes} {sp : UInt8} : GoodWord w → isSepByte sp = true → Txt (sp :: r) → Txt (w ++ sp :: r)
   | var {vw r : Bytes} : VarBody vw → Sep r → Txt r → Txt (64 :: (vw ++ r))
   | dec {w r : Bytes} : GoodDec w → Sep r → Txt r → Txt (w ++ r)
   | dotted {w r : Bytes} : GoodDotted w → Sep r → Txt r → Txt (w ++ r)
-  | dottedAt {w r : Bytes} : GoodDotted w → Txt (64 :: r) → Txt (w ++ 64 :: r)
+  | dottedAt {w r : Bytes} {sp : UInt8} : GoodDotted w → isSepByte sp = true → Txt (sp :: r) → Txt (w ++ sp :: r)
+  | punct {p : UInt8} {r : Bytes} : (p = 44 ∨ p = 63) → Txt r → Txt (p :: r)
+  | colon {r : Bytes} : Txt r → Txt (58 :: 32 :: r)
 
 theorem goodTok_benign (cat : UInt8) (w : Bytes) (h : cat = 110 ∧ GoodWord w ∨ cat = 49 ∧ GoodNum w) (p : Nat) :
     BenignTok { goodTok cat w with pos := p } := by
@@ -813,7 +859,7 @@ theorem tokLoop_txt (fuel : Nat) : ∀ (s : State), Txt (s.input.drop s.pos) →
         by simp [List.getElem?_set, hc], goodTok_benign cat w hcat _⟩⟩
       show Txt (s.input.drop (s.pos + w.length))
       rw [drop_add_of _ _ _ _ hd]; exact hr
-    | @wordAt w r hw hr =>
+    | @wordAt w r sp hw hsp hr =>
       have hwl : 1 ≤ w.length := (goodWord_bytes hw).2
       have hlt : s.pos < s.input.length := by
         rcases Nat.lt_or_ge s.pos s.input.length with hl | hg
@@ -822,9 +868,9 @@ theorem tokLoop_txt (fuel : Nat) : ∀ (s : State), Txt (s.input.drop s.pos) →
           have := congrArg List.length hd
           simp at this
       have hl0 : 0 < (s.input.drop s.pos).length := by rw [hd]; simp; omega
-      have hwr : 0 < (w ++ 64 :: r).length := by simp; omega
-      have hrun := runP_goodWord s.flags w (64 :: r) hw (Or.inr ⟨64, r, rfl, Or.inr rfl⟩) ((w ++ 64 :: r)[0]'hwr) (List.getElem?_eq_getElem hwr)
-      have h0 : (s.input.drop s.pos)[0] = (w ++ 64 :: r)[0]'hwr := by simp [hd]
+      have hwr : 0 < (w ++ sp :: r).length := by simp; omega
+      have hrun := runP_goodWord s.flags w (sp :: r) hw (Or.inr ⟨sp, r, rfl, hsp⟩) ((w ++ sp :: r)[0]'hwr) (List.getElem?_eq_getElem hwr)
+      have h0 : (s.input.drop s.pos)[0] = (w ++ sp :: r)[0]'hwr := by simp [hd]
       simp only [hlt, ↓reduceIte, sliceFrom_ok s.input s.pos (Nat.le_of_lt hlt), at'_ok hl0, h0,
         bind, Except.bind, pure, Except.pure]
       rw [hd, hrun]
@@ -888,7 +934,7 @@ theorem tokLoop_txt (fuel : Nat) : ∀ (s : State), Txt (s.input.drop s.pos) →
         by simp [List.getElem?_set, hc], dottedTok_benign w hw _⟩⟩
       show Txt (s.input.drop (s.pos + w.length))
       rw [drop_add_of _ _ _ _ hd]; exact hr
-    | @dottedAt w r hw hr =>
+    | @dottedAt w r sp hw hsp hr =>
       have hwl : 1 ≤ w.length := by have := (dotted_bytes hw).2.1; omega
       have hlt : s.pos < s.input.length := by
         rcases Nat.lt_or_ge s.pos s.input.length with hl | hg
@@ -897,9 +943,9 @@ theorem tokLoop_txt (fuel : Nat) : ∀ (s : State), Txt (s.input.drop s.pos) →
           have := congrArg List.length hd
           simp at this
       have hl0 : 0 < (s.input.drop s.pos).length := by rw [hd]; simp; omega
-      have hwr : 0 < (w ++ 64 :: r).length := by simp; omega
-      have hrun := runP_goodDotted s.flags w (64 :: r) hw (Or.inr ⟨64, r, rfl, Or.inr rfl⟩) ((w ++ 64 :: r)[0]'hwr) (List.getElem?_eq_getElem hwr)
-      have h0 : (s.input.drop s.pos)[0] = (w ++ 64 :: r)[0]'hwr := by simp [hd]
+      have hwr : 0 < (w ++ sp :: r).length := by simp; omega
+      have hrun := runP_goodDotted s.flags w (sp :: r) hw (Or.inr ⟨sp, r, rfl, hsp⟩) ((w ++ sp :: r)[0]'hwr) (List.getElem?_eq_getElem hwr)
+      have h0 : (s.input.drop s.pos)[0] = (w ++ sp :: r)[0]'hwr := by simp [hd]
       simp only [hlt, ↓reduceIte, sliceFrom_ok s.input s.pos (Nat.le_of_lt hlt), at'_ok hl0, h0,
         bind, Except.bind, pure, Except.pure]
       rw [hd, hrun]
@@ -910,6 +956,43 @@ theorem tokLoop_txt (fuel : Nat) : ∀ (s : State), Txt (s.input.drop s.pos) →
         by simp [List.getElem?_set, hc], dottedTok_benign w hw _⟩⟩
       show Txt (s.input.drop (s.pos + w.length))
       rw [drop_add_of _ _ _ _ hd]; exact hr
+    | @punct p r hp hr =>
+      have hlt := lt_of_drop_cons _ _ _ _ hd
+      have hl0 : 0 < (s.input.drop s.pos).length := by rw [hd]; simp
+      have h0 : (s.input.drop s.pos)[0] = p := by simp [hd]
+      have hrun : runP s.flags (p :: r) (dispatch p) = .ok { tok := punctTok p, next := 1 } := by
+        rcases hp with rfl | rfl
+        · exact runP_comma _ _
+        · exact runP_qmark _ _
+      simp only [hlt, ↓reduceIte, sliceFrom_ok s.input s.pos (Nat.le_of_lt hlt), at'_ok hl0, h0,
+        bind, Except.bind, pure, Except.pure]
+      rw [hd, hrun]
+      simp only [tvSet_ok s s.cur _ hc]
+      have hne0 : (({ punctTok p with pos := (punctTok p).pos + s.pos } : Token).cat != 0) = true := by
+        rcases hp with rfl | rfl <;> rfl
+      simp only [hne0, ↓reduceIte]
+      refine ⟨true, _, rfl, ?_, rfl, rfl, rfl, rfl, fun _ => ⟨{ punctTok p with pos := (punctTok p).pos + s.pos },
+        by simp [List.getElem?_set, hc], ?_⟩⟩
+      · show Txt (s.input.drop (s.pos + 1))
+        rw [drop_succ_of _ _ _ _ hd]; exact hr
+      · rcases hp with rfl | rfl
+        · right; right; right; right; left; rfl
+        · right; right; right; right; right; left; rfl
+    | @colon r hr =>
+      have hlt := lt_of_drop_cons _ _ _ _ hd
+      have hl0 : 0 < (s.input.drop s.pos).length := by rw [hd]; simp
+      have h0 : (s.input.drop s.pos)[0] = 58 := by simp [hd]
+      simp only [hlt, ↓reduceIte, sliceFrom_ok s.input s.pos (Nat.le_of_lt hlt), at'_ok hl0, h0,
+        bind, Except.bind, pure, Except.pure]
+      rw [hd, runP_colon]
+      simp only [tvSet_ok s s.cur _ hc]
+      have hne0 : (({ punctTok 58 with pos := (punctTok 58).pos + s.pos } : Token).cat != 0) = true := rfl
+      simp only [hne0, ↓reduceIte]
+      refine ⟨true, _, rfl, ?_, rfl, rfl, rfl, rfl, fun _ => ⟨{ punctTok 58 with pos := (punctTok 58).pos + s.pos },
+        by simp [List.getElem?_set, hc], ?_⟩⟩
+      · show Txt (s.input.drop (s.pos + 1))
+        rw [drop_succ_of _ _ _ _ hd]; exact Txt.space hr
+      · right; right; right; right; right; right; rfl
     | @var vw r hv hsep hr =>
       have hvl : 1 ≤ vw.length := (varBody_bytes hv).2
       have hlt : s.pos < s.input.length := lt_of_drop_cons _ _ _ _ hd
@@ -922,7 +1005,7 @@ theorem tokLoop_txt (fuel : Nat) : ∀ (s : State), Txt (s.input.drop s.pos) →
       have hne0 : (({ varTok vw with pos := (varTok vw).pos + s.pos } : Token).cat != 0) = true := rfl
       simp only [hne0, ↓reduceIte]
       refine ⟨true, _, rfl, ?_, rfl, rfl, rfl, rfl, fun _ => ⟨{ varTok vw with pos := (varTok vw).pos + s.pos },
-        by simp [List.getElem?_set, hc], Or.inr (Or.inr (Or.inr rfl))⟩⟩
+        by simp [List.getElem?_set, hc], Or.inr (Or.inr (Or.inr (Or.inl rfl)))⟩⟩
       show Txt (s.input.drop (s.pos + (1 + vw.length)))
       have : s.input.drop s.pos = (64 :: vw) ++ r := by rw [hd]; rfl
       have := drop_add_of _ _ _ _ this
